@@ -427,6 +427,34 @@ func VerifC12_APIKeyConfig() {
 	// unknown key
 	r := &http.Request{Header: http.Header{"Authorization": {"Bearer keyZZZZ"}}, RemoteAddr: "192.168.0.1:1234"}
 	rt.Assert(checkAPIKey(r) == nil, "keyconfig/unknown-key-grants-nothing")
+	// the configuration changes: all keys revoked, or only one entry kept
+	var kept []c12Key
+	switch rt.Choice("reconfigure", 3) {
+	case 1:
+		kept = keys[:1]
+	case 2:
+		kept = keys[len(keys)-1:]
+	}
+	entries = nil
+	for _, k := range kept {
+		entries = append(entries, k.entry)
+	}
+	rt.Assert(updateAPIKeys(nil, nil) == nil, "keyconfig/reimport-ok")
+	for _, k := range keys {
+		if k.path == "" {
+			continue
+		}
+		stillConfigured := false
+		for _, kk := range kept {
+			if kk.path == k.path && kk.entry == k.entry {
+				stillConfigured = true
+			}
+		}
+		r := &http.Request{Header: http.Header{"Authorization": {"Bearer " + k.path}}, RemoteAddr: "192.168.0.1:1234"}
+		if !stillConfigured {
+			rt.Assert(checkAPIKey(r) == nil, "keyconfig/revoked-key-grants-nothing")
+		}
+	}
 	rt.Reach("keyconfig-end")
 }
 
